@@ -141,8 +141,8 @@ func escapingEntry(c *FsCase) (int, string) {
 	dest := pushRaw(nil, c.Dest)
 	layer := c.Op == "layer"
 	for i, e := range c.Ents {
-		if e.Typ == "xglobal" && !layer {
-			continue
+		if e.Typ == "xglobal" {
+			continue // PAX global headers are ignored by both extractors before any effect (layers: since fix D26)
 		}
 		cleaned := strings.Join(pushCleanFirst(nil, e.Name), "/")
 		if !layer {
